@@ -433,9 +433,13 @@ def gen_history(rng, nticks, cov, malformed=False):
         r = rng.random()
         # ---- extra (non-tick) ops
         if r < 0.04:
-            _, _, exp = reduce_expect(lambda: CL.rewind_in_progress(s, float(now)))
+            sr, cr, exp = reduce_expect(lambda: CL.rewind_in_progress(s, float(now)))
             ops.append("ORewindPeek %s %s" % (gz(now), glist(gz(z) for z in exp)))
             cov.hit("rewind_peek")
+            if sr is not None:
+                monitor.append(("rewind", s, sr, cr, cfg))
+                if any(ip.attempts for w in s.workers.values() for ip in w.in_progress):
+                    cov.hit("rewind_peek_with_retry_in_progress")
             continue
         if r < 0.08:
             s2 = py_roundtrip(s, cfg, scs)
@@ -510,8 +514,11 @@ def gen_history(rng, nticks, cov, malformed=False):
             elif k < 0.44:
                 res = [failed()]
             elif k < 0.56:
+                # (a collecting invocation that returns None - or, less often, an event - on an incomplete set)
                 res = [AddCollectedEvent(event_id=rng.choice(["default", "x"]), event=ip.event),
-                       StepWorkerResult(result=None)]
+                       StepWorkerResult(result=None if rng.random() < 0.65 else newev())]
+                if res[1].result is not None:
+                    cov.hit("collect_with_returned_event")
             elif k < 0.62:
                 res = [DeleteCollectedEvent(event_id=rng.choice(["default", "x"])), out()]
             elif k < 0.74:
